@@ -18,6 +18,12 @@ EXTRA = {  # checks besides the seed's own property that are worth running again
     "C18-G": ["C07"], "C07-I": ["C14"], "C08-H": ["C18"], "C08-G": ["C07"], "C17-G": ["C14"], "C09-G": ["C17"], "C20-H": ["C14"],
     "C03-G": ["C14"], "C03-H": ["C01"], "C06-G": ["C05"], "C06-H": ["C05"], "C15-H": ["C04"], "C11-H": ["C10"],
     "C01-K": ["C02"], "C02-J": ["C01"], "C04-J": ["C14"], "C01-J": ["C03"],
+    # round 6 (L, M)
+    "C10-L": ["C13"], "C10-M": ["C13"], "C13-L": ["C10"], "C15-L": ["C04"], "C15-M": ["C04"], "C11-L": ["C10"],
+    "C11-M": ["C10"], "C02-L": ["C01"], "C02-M": ["C01"], "C06-L": ["C07"], "C06-M": ["C05"], "C03-L": ["C01"],
+    "C03-M": ["C01"], "C04-L": ["C15"], "C04-M": ["C14"], "C05-L": ["C06"], "C05-M": ["C06"], "C07-L": ["C18"],
+    "C07-M": ["C18"], "C19-L": ["C09"], "C19-M": ["C09"], "C09-L": ["C19"], "C09-M": ["C19"], "C18-L": ["C07"],
+    "C18-M": ["C07"], "C08-L": ["C07"], "C08-M": ["C07"], "C01-L": ["C02"], "C01-M": ["C02"],
 }
 
 
